@@ -171,11 +171,111 @@ def run(ctx):
         ctx.case("include_scope")
         if f:
             ctx.fail({"include_scope": True}, f)
+        include_scope_generated(rng, ctx, ctx.scale(150, 3000, 600))
     finally:
         os.chdir(cwd)
         shutil.rmtree(base, ignore_errors=True)
     if reqs and ctx.mode != "impl-only":
         ctx.corr("expand", cases, reqs, impls)
+
+
+INC_MOD = "verif_inc_scopes"
+
+
+def gen_scope_text(rng, k, n):
+    """text of importable scope number k: definitions, nested scopes, and include-scope statements naming later ones"""
+    lines = []
+
+    def body(depth, ind):
+        for _ in range(rng.randint(1, 3)):
+            r = rng.random()
+            if r < 0.45:
+                lines.append("%s%s = %d" % (ind, rng.choice("abxy"), rng.randint(0, 9)))
+                if rng.random() < 0.3:
+                    lines.append("%s  .help = h%d" % (ind, rng.randint(0, 9)))
+            elif r < 0.7 and depth < 2:
+                lines.append("%s%s {" % (ind, rng.choice("rst")))
+                body(depth + 1, ind + "  ")
+                lines.append("%s}" % ind)
+            elif k + 1 < n:
+                j = rng.randint(k + 1, n - 1)
+                sub = rng.choice(["", "", " a", " r", " s.a", " r.x", " t", " x"])
+                lines.append("%sinclude scope %s.t%d%s" % (ind, INC_MOD, j, sub))
+            else:
+                lines.append("%s%s = %d" % (ind, rng.choice("abxy"), rng.randint(0, 9)))
+    body(0, "")
+    return "\n".join(lines) + "\n"
+
+
+def all_paths(sc, prefix=""):
+    out = []
+    for o in sc.objects:
+        out.append(prefix + o.name)
+        if o.is_scope:
+            out.extend(all_paths(o, prefix + o.name + "."))
+    return out
+
+
+def include_scope_generated(rng, ctx, rounds):
+    """`include scope <python path> [<phil path>]`: equals splicing, at the statement, the objects selected by the path
+    from the *fully expanded* imported scope (its own include statements processed first); a path that selects nothing
+    is refused.  Imported objects are strings, scope objects and callables returning scopes."""
+    import sys
+    import types
+    for _ in range(rounds):
+        n = rng.randint(2, 4)
+        mod = types.ModuleType(INC_MOD)
+        sys.modules[INC_MOD] = mod
+        texts = [None] * n
+        try:
+            for k in reversed(range(n)):
+                texts[k] = gen_scope_text(rng, k, n)
+                kind = rng.choice(["str", "scope", "call"])
+                val = texts[k]
+                if kind != "str":
+                    sc = freephil.parse(input_string=texts[k])
+                    val = sc if kind == "scope" else (lambda sc=sc: sc)
+                setattr(mod, "t%d" % k, val)
+            k = rng.randrange(n)
+            case = {"include_scope_texts": texts, "target": k}
+            ctx.case(("include_scope", tuple(texts), k))
+            try:
+                expanded = freephil.parse(input_string=texts[k], process_includes=True)
+            except RuntimeError as e:
+                # a nested statement names a path that selects nothing: including this scope must be refused too
+                try:
+                    freephil.parse(input_string="include scope %s.t%d\n" % (INC_MOD, k), process_includes=True)
+                except RuntimeError:
+                    ctx.count("include_scope_refused")
+                    continue
+                ctx.fail(case, "imported scope cannot be expanded (%s) but including it was accepted" % e)
+                continue
+            paths = sorted(set(all_paths(expanded)))
+            for sub in [None] + rng.sample(paths, min(3, len(paths))) + ["nosuch.q"]:
+                stmt = "include scope %s.t%d%s" % (INC_MOD, k, "" if sub is None else " " + sub)
+                src = "p = 1\nw {\n  %s\n}\nq = 2\n" % stmt
+                sel = expanded if sub is None else expanded.get(path=sub)
+                ctx.count("include_scope_" + ("whole" if sub is None else "subpath"))
+                try:
+                    got = freephil.parse(input_string=src, process_includes=True)
+                except RuntimeError as e:
+                    if len(sel.objects) == 0 and "not found" in str(e):
+                        continue
+                    ctx.fail(dict(case, statement=stmt), "refused: %s" % e)
+                    continue
+                except BaseException as e:
+                    ctx.fail(dict(case, statement=stmt), "raised %s: %s" % (type(e).__name__, e))
+                    continue
+                if len(sel.objects) == 0:
+                    ctx.fail(dict(case, statement=stmt), "path selects nothing in the expanded scope but was accepted")
+                    continue
+                w = got.objects[1]
+                d = _lay.first_diff([_lay.sig(o) for o in sel.objects], [_lay.sig(o) for o in w.objects])
+                if d or [o.name for o in got.objects] != ["p", "w", "q"]:
+                    ctx.fail(dict(case, statement=stmt),
+                             "include scope differs from splicing the selection of the expanded imported scope at %s" % d)
+        finally:
+            sys.modules.pop(INC_MOD, None)
 
 
 def include_scope_oracle():
